@@ -243,7 +243,7 @@ func paramNames(fd *ast.FuncDecl) []string {
 	return out
 }
 
-func exprStr(fset *token.FileSet, e ast.Node) string { return squash(printNode(fset, e)) }
+func guardExprStr(fset *token.FileSet, e ast.Node) string { return squash(printNode(fset, e)) }
 
 // ---- the analysis -------------------------------------------------------------------------
 
@@ -380,9 +380,9 @@ func (a *ganalyzer) guardIn(cond ast.Expr, en *genv) (string, bool) {
 		}
 		lm, rm := a.mentions(l, en), a.mentions(r, en)
 		if lm && !rm && !isLiteralish(r) {
-			other, ok = exprStr(a.pkg.fset, r), true
+			other, ok = guardExprStr(a.pkg.fset, r), true
 		} else if rm && !lm && !isLiteralish(l) {
-			other, ok = exprStr(a.pkg.fset, l), true
+			other, ok = guardExprStr(a.pkg.fset, l), true
 		}
 	}
 	ast.Inspect(cond, func(n ast.Node) bool {
@@ -842,7 +842,7 @@ func genGuards(repo string) (string, []string, error) {
 							continue
 						}
 						for _, p := range fd.Type.Params.List {
-							if strings.HasSuffix(exprStr(fset, p.Type), "."+rt) {
+							if strings.HasSuffix(guardExprStr(fset, p.Type), "."+rt) {
 								h = fd
 							}
 						}
@@ -857,7 +857,7 @@ func genGuards(repo string) (string, []string, error) {
 					an := &ganalyzer{pkg: kp, msgMethods: mm, signerSel: selPath, res: &guardRes{kind: "none"}}
 					en := &genv{msg: map[string]bool{}, tainted: map[string]bool{}}
 					for _, p := range h.Type.Params.List {
-						if strings.HasSuffix(exprStr(fset, p.Type), "."+rt) {
+						if strings.HasSuffix(guardExprStr(fset, p.Type), "."+rt) {
 							for _, n := range p.Names {
 								en.msg[n.Name] = true
 							}
@@ -925,7 +925,7 @@ func genGuards(repo string) (string, []string, error) {
 				break
 			}
 			if id, ok := root.(*ast.Ident); ok && id.Name == "govRouter" {
-				routes = append(routes, exprStr(fset, c.Args[0])+" "+exprStr(fset, c.Args[1]))
+				routes = append(routes, guardExprStr(fset, c.Args[0])+" "+guardExprStr(fset, c.Args[1]))
 			}
 			return true
 		})
